@@ -50,6 +50,9 @@ func sigKey(s *types.Signature) string {
 
 // CallGraph builds (once) the workspace call graph.
 func (p *Prog) CallGraph() *CG {
+	if p.cg != nil {
+		return p.cg
+	}
 	cg := &CG{P: p, Out: map[*Func][]*Site{}, In: map[*Func][]*Site{}, ByObj: map[*types.Func][]*Site{},
 		impls: map[*types.Func][]*Func{}, addrOf: map[string][]*Func{}}
 	cg.named = p.buildNamed()
@@ -121,6 +124,7 @@ func (p *Prog) CallGraph() *CG {
 		}
 		walk(f.Decl.Body, false)
 	}
+	p.cg = cg
 	return cg
 }
 
